@@ -4,6 +4,7 @@ package main
 
 import (
 	"fmt"
+	"regexp"
 	"go/constant"
 	"go/token"
 	"go/types"
@@ -56,19 +57,121 @@ func arr2Sort(s string) string { return "(Array Int (Array Int " + s + "))" }
 func (l *Loc) isElem() bool   { return l.Idx != "" }
 func (l *Loc) isGlobal() bool { return strings.HasPrefix(l.Comp, "G:") }
 
+// ---- two-layer heap ----
+// Every indexed component X has an "old" layer (objects that existed at function entry) and a "new" layer
+// "N|X" (objects allocated since). A write to a provably fresh object never touches the old layer, so facts
+// about pre-existing objects (also quantified ones) stay syntactically valid across local allocations.
+
+type refClass int
+
+const (
+	rcUnknown refClass = iota
+	rcOld
+	rcFresh
+)
+
+var plusConstRe = regexp.MustCompile(`^\(\+ (.*) ([0-9]+)\)$`)
+
+func baseRef(t Term) Term {
+	for {
+		m := plusConstRe.FindStringSubmatch(t)
+		if m == nil || !balanced(m[1]) {
+			return t
+		}
+		t = m[1]
+	}
+}
+
+func (v *Verifier) classify(ref Term) refClass {
+	b := baseRef(ref)
+	if b == "0" || b == "" {
+		return rcOld
+	}
+	if v.knownNonNil[b] {
+		return rcFresh
+	}
+	if v.oldRefs[b] {
+		return rcOld
+	}
+	return rcUnknown
+}
+
+func layered(comp string) bool {
+	return strings.HasPrefix(comp, "H:") || strings.HasPrefix(comp, "E:") || strings.HasPrefix(comp, "C:")
+}
+
+const entryNxt = "nxt@0"
+
+// rd returns row `comp[ref]` (a scalar for field components, an array for element components).
+func (fr *Frame) rd(st *State, comp, srt string, ref Term) Term {
+	if !layered(comp) {
+		return sel(fr.ctx.get(st, comp, srt), ref)
+	}
+	switch fr.v.classify(ref) {
+	case rcOld:
+		a := fr.ctx.get(st, comp, srt)
+		t := sel(a, ref)
+		if a == sym(comp+"@0") {
+			fr.v.entryReads[t] = true
+		}
+		return t
+	case rcFresh:
+		return sel(fr.ctx.get(st, "N|"+comp, srt), ref)
+	}
+	return ite(lt(baseRef(ref), entryNxt), sel(fr.ctx.get(st, comp, srt), ref), sel(fr.ctx.get(st, "N|"+comp, srt), ref))
+}
+
+// wr sets row comp[ref] := row.
+func (fr *Frame) wr(st *State, comp, srt string, ref Term, row Term) *State {
+	if !layered(comp) {
+		fr.touch(comp, srt)
+		a := fr.ctx.get(st, comp, srt)
+		return st.with(comp, fr.nameTerm(store(a, ref, row), comp, srt))
+	}
+	switch fr.v.classify(ref) {
+	case rcOld:
+		fr.touch(comp, srt)
+		a := fr.ctx.get(st, comp, srt)
+		return st.with(comp, fr.nameTerm(store(a, ref, row), comp, srt))
+	case rcFresh:
+		fr.touch("N|"+comp, srt)
+		a := fr.ctx.get(st, "N|"+comp, srt)
+		return st.with("N|"+comp, fr.nameTerm(store(a, ref, row), "N|"+comp, srt))
+	}
+	fr.touch(comp, srt)
+	fr.touch("N|"+comp, srt)
+	isOld := lt(baseRef(ref), entryNxt)
+	a := fr.ctx.get(st, comp, srt)
+	n := fr.ctx.get(st, "N|"+comp, srt)
+	st = st.with(comp, fr.nameTerm(ite(isOld, store(a, ref, row), a), comp, srt))
+	st = st.with("N|"+comp, fr.nameTerm(ite(isOld, n, store(n, ref, row)), "N|"+comp, srt))
+	return st
+}
+
 // read a scalar leaf at location l (+suffix)
 func (fr *Frame) readLeaf(st *State, l *Loc, suffix, sort string) Term {
 	comp := l.Comp + suffix
 	switch {
 	case l.isGlobal():
-		return fr.ctx.get(st, comp, sort)
-	case l.isElem():
-		if l.Off != "" && l.Off != "0" {
-			return sel(fr.v.shift(fr.ctx, sel(fr.ctx.get(st, comp, arr2Sort(sort)), l.Ref), l.Off, sort), l.Idx)
+		t := fr.ctx.get(st, comp, sort)
+		if t == sym(comp+"@0") {
+			fr.v.entryReads[t] = true
 		}
-		return sel(sel(fr.ctx.get(st, comp, arr2Sort(sort)), l.Ref), l.Idx)
+		return t
+	case l.isElem():
+		row := fr.rd(st, comp, arr2Sort(sort), l.Ref)
+		var t Term
+		if l.Off != "" && l.Off != "0" {
+			t = sel(fr.v.shift(fr.ctx, row, l.Off, sort), l.Idx)
+		} else {
+			t = sel(row, l.Idx)
+		}
+		if fr.v.entryReads[row] {
+			fr.v.entryReads[t] = true
+		}
+		return t
 	default:
-		return sel(fr.ctx.get(st, comp, arrSort(sort)), l.Ref)
+		return fr.rd(st, comp, arrSort(sort), l.Ref)
 	}
 }
 
@@ -79,15 +182,10 @@ func (fr *Frame) writeLeaf(st *State, l *Loc, suffix, sort string, val Term) *St
 		fr.touch(comp, sort)
 		return st.with(comp, val)
 	case l.isElem():
-		fr.touch(comp, arr2Sort(sort))
-		a := fr.ctx.get(st, comp, arr2Sort(sort))
-		na := fr.nameTerm(store(a, l.Ref, store(sel(a, l.Ref), add(orZero(l.Off), l.Idx), val)), comp, arr2Sort(sort))
-		return st.with(comp, na)
+		row := fr.rd(st, comp, arr2Sort(sort), l.Ref)
+		return fr.wr(st, comp, arr2Sort(sort), l.Ref, store(row, add(orZero(l.Off), l.Idx), val))
 	default:
-		fr.touch(comp, arrSort(sort))
-		a := fr.ctx.get(st, comp, arrSort(sort))
-		na := fr.nameTerm(store(a, l.Ref, val), comp, arrSort(sort))
-		return st.with(comp, na)
+		return fr.wr(st, comp, arrSort(sort), l.Ref, val)
 	}
 }
 
@@ -112,8 +210,8 @@ func (fr *Frame) nameTerm(t Term, hint, sort string) Term {
 }
 
 func (fr *Frame) factOnce(t Term) {
-	if t == "true" {
-		return
+	if t == "true" || strings.Contains(t, "!q") {
+		return // never assert facts about terms that mention bound variables
 	}
 	if fr.v.facts[t] {
 		return
@@ -140,6 +238,7 @@ func (fr *Frame) loadLoc(st *State, l *Loc, t types.Type) Val {
 		fr.factOnce(le("0", x))
 		if kindOf(t) == KRef || kindOf(t) == KMap {
 			fr.factOnce(lt(x, st.nxt)) // heap closed under allocation
+			fr.markOld(x)
 		}
 		return Val{K: kindOf(t), T: t, A: x}
 	case KArr:
@@ -148,10 +247,12 @@ func (fr *Frame) loadLoc(st *State, l *Loc, t types.Type) Val {
 		}
 		x := fr.readLeaf(st, l, "", "Int")
 		fr.factOnce(le("0", x))
+		fr.markOld(x)
 		return Val{K: KArr, T: t, A: x}
 	case KLoc:
 		x := fr.readLeaf(st, l, "", "Int")
 		fr.factOnce(le("0", x))
+		fr.markOld(x)
 		pt := t.Underlying().(*types.Pointer).Elem()
 		return Val{K: KLoc, T: t, Loc: &Loc{Comp: "C:" + typeName(pt), Ref: x, T: pt}}
 	case KSlice:
@@ -162,6 +263,7 @@ func (fr *Frame) loadLoc(st *State, l *Loc, t types.Type) Val {
 			Cap: fr.readLeaf(st, l, "#cap", "Int")}
 		fr.factOnce(sliceWF(sv))
 		fr.factOnce(lt(sv.A, st.nxt))
+		fr.markOld(sv.A)
 		return sv
 	case KStruct:
 		stt := t.Underlying().(*types.Struct)
@@ -284,9 +386,8 @@ func (fr *Frame) storeObj(st *State, ref Term, structT types.Type, v Val) *State
 			at := ft.Underlying().(*types.Array)
 			for _, sc := range fr.v.leafComps(at.Elem()) {
 				comp := "E:" + typeName(at.Elem()) + sc.suffix
-				a := fr.ctx.get(st, comp, arr2Sort(sc.sort))
-				fr.touch(comp, arr2Sort(sc.sort))
-				st = st.with(comp, fr.nameTerm(store(a, fv.A, sel(a, v.Fields[i].A)), comp, arr2Sort(sc.sort)))
+				row := fr.rd(st, comp, arr2Sort(sc.sort), v.Fields[i].A)
+				st = fr.wr(st, comp, arr2Sort(sc.sort), fv.A, row)
 			}
 		default:
 			st = fr.storeLoc(st, fv.Loc, ft, v.Fields[i])
@@ -646,10 +747,8 @@ func (fr *Frame) zeroElems(st *State, ref Term, elem types.Type) *State {
 	for _, sc := range fr.v.leafComps(elem) {
 		comp := "E:" + typeName(elem) + sc.suffix
 		srt := arr2Sort(sc.sort)
-		a := fr.ctx.get(st, comp, srt)
-		fr.touch(comp, srt)
 		z := fmt.Sprintf("((as const %s) %s)", arrSort(sc.sort), zeroTermOf(fr.v, fr.ctx, sc))
-		st = st.with(comp, fr.nameTerm(store(a, ref, z), comp, srt))
+		st = fr.wr(st, comp, srt, ref, z)
 	}
 	return st
 }
@@ -950,6 +1049,10 @@ func (fr *Frame) binop(ins ssa.Instruction, op token.Token, x, y Val, rt types.T
 				// signed shift wraps silently in Go; model exactly
 				return Val{K: KInt, T: rt, A: fr.wrap(r, rt)}
 			}
+		} else if x.A == "1" && strings.HasPrefix(y.A, "(mod ") && strings.HasSuffix(y.A, " 64)") {
+			// 1 << (k % 64): a single bit of a 64-bit word
+			fr.v.bitAxioms()
+			return Val{K: KInt, T: rt, A: app("pow2", y.A)}
 		} else {
 			f := fr.ctx.declareFun("pow2", []string{"Int"}, "Int")
 			fr.factOnce("(forall ((k! Int)) (! (=> (and (<= 0 k!) (< k! 64)) (and (> (pow2 k!) 0) (= (pow2 (+ k! 1)) (* 2 (pow2 k!))))) :pattern ((pow2 k!))))")
@@ -972,6 +1075,7 @@ func (fr *Frame) binop(ins ssa.Instruction, op token.Token, x, y Val, rt types.T
 		if xc, ok := constOf(x.A); ok && xc.Sign() >= 0 {
 			return Val{K: KInt, T: rt, A: fr.bitAndConst(y.A, xc, rt)}
 		}
+		fr.v.bitAxioms()
 		f := fr.ctx.declareFun("band", []string{"Int", "Int"}, "Int")
 		rr := app(f, x.A, y.A)
 		fr.factOnce(implies(and(le("0", x.A), le("0", y.A)), and(le("0", rr), le(rr, x.A), le(rr, y.A))))
@@ -983,6 +1087,7 @@ func (fr *Frame) binop(ins ssa.Instruction, op token.Token, x, y Val, rt types.T
 		if xc, ok := constOf(x.A); ok && xc.Sign() >= 0 {
 			return Val{K: KInt, T: rt, A: "(+ " + y.A + " (- " + xc.String() + " " + fr.bitAndConst(y.A, xc, rt) + "))"}
 		}
+		fr.v.bitAxioms()
 		f := fr.ctx.declareFun("bor", []string{"Int", "Int"}, "Int")
 		rr := app(f, x.A, y.A)
 		fr.factOnce(implies(and(le("0", x.A), le("0", y.A)), and(le(x.A, rr), le(y.A, rr), le(rr, add(x.A, y.A)))))
@@ -1140,4 +1245,12 @@ func (v *Verifier) shift(c *Ctx, a Term, off Term, sort string) Term {
 		c.assert(fmt.Sprintf("(forall ((a! %s) (o! Int) (k! Int)) (! (= (select (%s a! o!) k!) (select a! (+ o! k!))) :pattern ((select (%s a! o!) k!))))", arrSort(sort), f, f), "slice view")
 	}
 	return app(f, a, off)
+}
+
+// markOld records that a reference read from the entry heap through an old object denotes an old object
+// (the entry heap is closed: objects existing at entry only point to objects existing at entry).
+func (fr *Frame) markOld(x Term) {
+	if fr.v.entryReads[x] {
+		fr.v.oldRefs[x] = true
+	}
 }
